@@ -38,6 +38,9 @@ var errDialRefused = errors.New("connect: connection refused")
 var errDialCanceled = errors.New("dial: operation was canceled")
 
 func verifDialHook(ctx context.Context, addr string) (net.Conn, error) {
+	if verifSeqEnv != nil && verifDial == verifSeqEnv.dial {
+		return verifSeqEnv.dialHook(ctx)
+	}
 	d := verifDial
 	if d == nil {
 		verifUnsupported("dial without a dial script")
